@@ -142,6 +142,48 @@ def gen_case(rng, nvar=None, coding_p=0.75, max_genes=2):
         return {'world': world, 'gvf': rows, 'gene': gene['id'], 'target': tx['id'], 'tag': tag}
     raise RuntimeError('generator failed')
 
+def gen_adjpair_case(rng, coding_p=0.85):
+    """two SNVs on ADJACENT bases (p, p+1) -- obliged together, the tool merges them into an MNV under
+    --max-adjacent-as-mnv 2 -- plus one or two more records STARTING at p (a second / third allele, or an indel
+    anchored on p), plus 0-2 records nearby.  The extra alleles overlap the first SNV, so the pair's haplotype
+    does not carry them, but they sit between the pair in the tool's sorted record list."""
+    for _ in range(100):
+        c = gen_case(rng, nvar=rng.choice([1, 1, 2]), coding_p=coding_p)
+        world = c['world']; gene = find_gene(world, c['gene'])
+        tx = next(t for t in gene['transcripts'] if t['id'] == c['target'])
+        L = G.tx_len(tx)
+        lo = (tx['cds'][0] + 4) if tx['cds'] else 4
+        hi = (min(tx['cds'][1], L) - 4) if tx['cds'] else L - 6
+        if hi - lo < 6:
+            continue
+        tp = rng.randint(lo, hi)
+        g0 = G.g2gene(gene, G.tx2g(gene, tx, tp)); g1 = G.g2gene(gene, G.tx2g(gene, tx, tp + 1))
+        if g1 != g0 + 1:
+            continue
+        gseq = G.gene_seq(world, gene)
+        alts = [b for b in NT if b != gseq[g0]]
+        rng.shuffle(alts)
+        recs = [(g0, gseq[g0], alts[0]), (g1, gseq[g1], _mut_base(rng, gseq[g1])), (g0, gseq[g0], alts[1])]
+        x = rng.random()
+        if x < 0.35:
+            recs.append((g0, gseq[g0], alts[2]))
+        elif x < 0.7:
+            recs.append((g0, gseq[g0], gseq[g0] + rng.choice(NT) * rng.choice([1, 2, 3])))
+        elif g0 + 3 < len(gseq):
+            recs.append((g0, gseq[g0:g0 + 3], gseq[g0]))
+        have = set((r[1], r[3], r[4]) for r in c['gvf'])
+        for gs, ref, alt in recs:
+            if (gs + 1, ref, alt) in have:
+                continue
+            have.add((gs + 1, ref, alt))
+            for t in gene['transcripts']:
+                kind, _, _ = map_record(gene, t, gs, gs + len(ref))
+                if kind != 'outside':
+                    c['gvf'].append([gene['id'], gs + 1, var_id(gs, ref, alt), ref, alt, t['id'], gene['name']])
+        c['tag'] = 'adjpair'
+        return c
+    raise RuntimeError('adjacent-pair generator failed')
+
 def off_grid_mw(rng, bases=(0, 300, 500, 500, 700)):
     base = rng.choice(bases)
     min_mw = base + rng.randrange(0, 1000) / 1000.0 + 0.00005
